@@ -67,3 +67,18 @@ Ltac int64_eq :=
              destruct (to_int64_decomp e) as [k H]; rewrite H; clear H
          end;
   unfold two64; Z.div_mod_to_equations; lia.
+
+(* semantic closing tactic for the tie obligations: split every conditional and every comparison, then linear
+   arithmetic.  Robust against a source that writes the same test differently (a >= b / b <= a / !(a < b)). *)
+Ltac arith_cases :=
+  rewrite ?gtb_ltb, ?geb_leb;
+  repeat match goal with
+         | |- context [if ?c then _ else _] => destruct c eqn:?
+         end;
+  try reflexivity; try lia;
+  repeat match goal with
+         | |- context [?a <? ?b] => destruct (Z.ltb_spec a b)
+         | |- context [?a <=? ?b] => destruct (Z.leb_spec a b)
+         | |- context [?a =? ?b] => destruct (Z.eqb_spec a b)
+         end;
+  cbn [negb andb orb]; try reflexivity; try lia.
